@@ -92,6 +92,17 @@ func (ex *Exec) newSym(elem types.Type, n *Term, content symContent) *ArrObj {
 	return &ArrObj{Elem: elem, N: n, Content: content, id: ex.arrSeq}
 }
 
+// bigArrayOf returns the functional array object held in an array-typed slot,
+// if the array is represented that way.
+func bigArrayOf(v Value) (*ArrObj, bool) {
+	a, ok := v.(*ArrObj)
+	if ok && a != nil {
+		a.bigArray = true
+		return a, true
+	}
+	return nil, false
+}
+
 func (a *ArrObj) isDense() bool { return a.Dense != nil }
 
 func (ex *Exec) arrLen(a *ArrObj) *Term {
